@@ -868,6 +868,84 @@ def lower_switches(g):
     return g
 
 
+def lower_bool_assignments(g):
+    """A bool local that is assigned more than once (`bool more = n != 0; if (!more) { ...; more = c != EOF && f() != EOF; }`)
+    carries a computed truth value the engine cannot propagate (it copies values, it does not compute them).  Turn every store of
+    a computed condition into control flow -- `x = cond;` becomes `if (cond) x = 1; else x = 0;` -- so that the walk knows the
+    value of x wherever it is tested later, through any number of reassignments."""
+    stores = {}
+    bools = set()
+    for n in g.nodes.values():
+        if n.get('k') == 'decl' and not n.get('inlined_return'):
+            for v in n['vars']:
+                if v.get('tC', '').replace('const ', '').strip() == 'bool':
+                    bools.add(v['d'])
+                    if _is_id(v.get('init')):
+                        stores.setdefault(v['d'], []).append(n['id'])
+        elif n.get('k') == 'assign' and n.get('op') == '=':
+            c = E.carrier_of(g, n['lhs'])
+            if c is not None and c[0] == 'var':
+                stores.setdefault(c[1], []).append(n['id'])
+    targets = {d for d in bools if len(stores.get(d, [])) > 1}
+    if not targets:
+        return False
+
+    def computed(nid):
+        n = g.sn(nid)
+        if n is None:
+            return False
+        if n.get('k') == 'binop' and n.get('op') in ('&&', '||', '==', '!=', '<', '<=', '>', '>='):
+            return True
+        return n.get('k') == 'unop' and n.get('op') == '!'
+
+    changed = False
+    for d in sorted(targets):
+        for sid in stores[d]:
+            n = g.nodes[sid]
+            if n.get('k') == 'decl':
+                if len(n['vars']) != 1:
+                    continue
+                rhs, name = n['vars'][0]['init'], n['vars'][0]['name']
+            else:
+                rhs = n['rhs']
+                ln = g.sn(n['lhs'])
+                name = ln.get('name') if ln else 'b'
+            if not computed(rhs):
+                continue
+            pos = None
+            for b in g.blocks.values():
+                if sid in b['elems']:
+                    pos = (b, b['elems'].index(sid))
+            root = g.strip(rhs, casts=True)
+            if pos is None or root not in pos[0]['elems'][:pos[1]]:
+                continue
+            B, i = pos
+            loc = {k: n[k] for k in ('l', 'o') if k in n}
+            arms = []
+            for val in (1, 0):
+                lit = g.new_node(dict(loc, k='lit', cls='CXXBoolLiteralExpr', cv=str(val), t='bool', synthetic=True))
+                var = g.new_node(dict(loc, k='var', cls='DeclRefExpr', vk='local', d=d, name=name, t='bool', synthetic=True))
+                asg = g.new_node(dict(loc, k='assign', cls='BinaryOperator', op='=', lhs=var, rhs=lit, t='bool', synthetic=True))
+                for x in (lit, var, asg):
+                    if sid in g.origin:
+                        g.origin[x] = g.origin[sid]
+                arms.append(g.new_block({'elems': [lit, var, asg], 'succs': []}))
+            post = {'elems': B['elems'][i + 1:], 'succs': list(B['succs'])}
+            for k in ('term', 'termcls', 'cond'):
+                if k in B:
+                    post[k] = B.pop(k)
+            pid = g.new_block(post)
+            for a in arms:
+                g.blocks[a]['succs'] = [pid]
+            B['elems'] = B['elems'][:i]
+            B['cond'] = root
+            B['termcls'] = 'IfStmt'
+            B['succs'] = arms
+            g._reset()
+            changed = True
+    return changed
+
+
 def fix_short_circuit_joins(g):
     """In a loop condition `a && b` clang's CFG sends the false edge of `a` into the join block whose terminator is the whole
     expression (for an if statement it goes straight to the else target).  The engine reads the join's condition as `b`, which is
@@ -1199,6 +1277,8 @@ def normalized(fb, fn, inline=True, _memo={}):
     if any(b.get('termcls') == 'SwitchStmt' for b in g.blocks.values()):
         lower_switches(g)
         changed = True
+    if lower_bool_assignments(g):
+        changed = True
     if fix_short_circuit_joins(g):
         changed = True
     if substitute_named_conditions(g):
@@ -1299,6 +1379,11 @@ def file_has_more_env(fn, call):
     probes = [n for n in fn.all_nodes() if E.is_extern_c(n) and n['q'] in EOF_PROBES and n['id'] in after]
     for n in probes:
         env[('node', n['id'])] = E.ge(0)
+    for n in fn.all_nodes():
+        # pushing back the one byte just read cannot fail (C11 7.21.7.10: one character of pushback is guaranteed)
+        if E.is_extern_c(n) and n['q'] == 'ungetc' and n['id'] in after:
+            if any(fn.elem_dominates(p['id'], n['id']) for p in probes):
+                env[('node', n['id'])] = E.ge(0)
     for n in fn.all_nodes():
         if E.is_extern_c(n) and n['q'] in EOF_FLAG and n['id'] in after:
             if any(fn.elem_dominates(p['id'], n['id']) and fn.elem_dominates(call['id'], p['id']) for p in probes):
